@@ -717,7 +717,8 @@ class Interp:
             q = next((q for q, fn in fv.module.funcs.items() if fn is fv.node), None)
             callee = self.pack.contract_for(fv.module.relpath, q) if q else None
             cur = self.contract
-            if callee is not None and callee is not cur and not (cur is not None and q in cur.inline):
+            # (a recursive call of the function under verification uses its own contract: induction hypothesis)
+            if callee is not None and not (cur is not None and q in cur.inline):
                 return self.apply_contract(callee, None, args, kwargs, node)
             return self.call_closure(fv, args, kwargs, node)
         if isinstance(fv, BoundMethod):
@@ -739,6 +740,8 @@ class Interp:
             return h(self, args, kwargs)
         if isinstance(fv, ModuleRef):
             h = self.pack.models.get(fv.dotted)
+            if h is None and fv.dotted.split(".")[-1].endswith(("Error", "Exception")):
+                return SExc(self.pack.exc_by_dotted(fv.dotted), ())  # constructor of a library exception class
             if h is None:
                 self.unsupported(node, "no assumed contract for external %s" % fv.dotted)
             return h(self, args, kwargs)
